@@ -13,7 +13,8 @@ parser.rs  process_multiline_segments (text)    `processMultilineSegments` (stop
 format.rs  escape_single_line_text              `escapeSingle`
 format.rs  escape_multiline_text                `escapeMultiText`
 format.rs  protect_trailing_spaces              `protectTrailingSpaces`
-format.rs  multiline_string_doc (text only)     `multilineLines` (the escaped, protected lines)
+format.rs  multiline_string_doc (text only)     `multilineLines` (the escaped, protected lines), `multilineDoc`
+format.rs  literal_placeholder / expand_literals `literalPlaceholder`, `expandLiterals`
 format.rs  collapse_blanks                      `collapseBlanks`  (needs `rustLines`/`isWhitespace`, so
                                                   it lives in Doc-dependent `Layout` section below)
 
@@ -317,35 +318,50 @@ def protectTrailingSpaces (line : List Char) : List Char :=
 def multilineLines (value : List Char) : List (List Char) :=
   (splitNl value).map (fun l => protectTrailingSpaces (escapeMultiText l))
 
-/-- `multiline_string_doc` for a text-only string. -/
-def multilineDoc (value : List Char) : Doc :=
-  .concat (.text ['"', '"', '"'] ::
-    ((multilineLines value).flatMap (fun l => [Doc.hardline, Doc.text l]) ++
-      [Doc.hardline, Doc.text ['"', '"', '"']]))
+/-- decimal digits of `n` (`format!("{}", index)`) -/
+def natDigits (n : Nat) : List Char := (toString n).toList
 
-/-! ### Hypotheses of the multi-line round trip (decidable; see `C17.escape_multi_roundtrip`) -/
+/-- `literal_placeholder(index)`: a NUL followed by the index. No other laid-out line starts with a
+    NUL, so a line is a placeholder exactly when its first non-space character is NUL. -/
+def literalPlaceholder (index : Nat) : List Char := '\x00' :: natDigits index
 
-/-- Unicode white space that the multi-line rendering neither escapes (`\t`, `\r`) nor protects
-    (`' '` → `\s`): U+000B, U+000C, U+0085, U+00A0, U+1680, U+2000–U+200A, U+2028, U+2029, U+202F,
-    U+205F, U+3000. The printer's `trim_end` strips it at the end of a line. -/
-def isExoticWs (c : Char) : Bool :=
-  isWhitespace c && !(c = ' ' || c = '\t' || c = '\r' || c = '\n')
+/-- `multiline_string_doc` (since a7d7642): the delimiters around ONE placeholder line; the content
+    lines (`multilineLines`) are kept in the literal store under `index` and put back by
+    `expandLiterals` after layout and `collapse_blanks`. -/
+def multilineDoc (index : Nat) : Doc :=
+  .concat [.text ['"', '"', '"'], .hardline, .text (literalPlaceholder index), .hardline,
+    .text ['"', '"', '"']]
 
-def lineEndsExotic (l : List Char) : Bool :=
-  match l.getLast? with
-  | some c => isExoticWs c
-  | none => false
+/-- `str::parse::<usize>()` on the text after the NUL: an optional `+`, then one or more ASCII
+    digits, value below 2^64. -/
+def parseUsize (cs : List Char) : Option Nat :=
+  let ds := match cs with
+    | '+' :: rest => rest
+    | _ => cs
+  if ds.isEmpty || !ds.all (fun c => '0' ≤ c && c ≤ '9') then none
+  else
+    let n := ds.foldl (fun acc c => acc * 10 + (c.toNat - '0'.toNat)) 0
+    if n < 2 ^ 64 then some n else none
 
-/-- No line of the value ends in exotic white space. -/
-def noExoticTrailingWs (v : List Char) : Bool := (splitNl v).all (fun l => !lineEndsExotic l)
+/-- One line of `expand_literals`: the lines it contributes to the output. `none` = the index is not
+    in the store (`literals[index]` would panic — cannot happen for text the formatter produced). -/
+def expandLine (literals : List (List (List Char))) (line : List Char) : Option (List (List Char)) :=
+  let indent := line.takeWhile (· = ' ')
+  let rest := line.dropWhile (· = ' ')
+  match rest with
+  | '\x00' :: digits =>
+    match parseUsize digits with
+    | some index =>
+      match literals[index]? with
+      | some content => some (content.map (fun l => if l.isEmpty then [] else indent ++ l))
+      | none => none
+    | none => some [line]
+  | _ => some [line]
 
-def hasBlankRun : List (List Char) → Bool
-  | [] :: [] :: _ => true
-  | _ :: ls => hasBlankRun ls
-  | [] => false
-
-/-- The value has no two consecutive empty lines (`collapse_blanks` would merge them). -/
-def noBlankRun (v : List Char) : Bool := !hasBlankRun (splitNl v)
+/-- `expand_literals(text, literals)`: every output line is followed by `\n`. -/
+def expandLiterals (text : List Char) (literals : List (List (List Char))) : Option (List Char) :=
+  ((rustLines text).mapM (expandLine literals)).map
+    (fun ls => (ls.flatten.map (· ++ ['\n'])).flatten)
 
 /-! ### `collapse_blanks` -/
 
